@@ -18,7 +18,9 @@ for p in ALL:
             "engine": c.get("engine", "lean-models+rust-harness"),
             "level_claimed": {"category": c.get("category", "proof"), "text": c["text"], "design_ref": c.get("design_ref", "DESIGN.md §3")},
             "level_note": c["note"],
-            "technique": c.get("technique", "Lean 4 theorems about an executable model + differential correspondence with the crate"),
+            "technique": c.get("technique", "Lean 4 theorems about an executable model + differential correspondence with the crate")
+            + ("; function bodies of src/lib.rs regenerated as Lean by a translator and proved equal to the model (" +
+               ", ".join("GenFn" + g for g in specs.GEN_MODS[p]) + ")" if p in getattr(specs, "GEN_MODS", {}) else ""),
         })
     else:
         na.append({"property_id": p, "reason": claims.NOT_CLAIMED.get(p, "check not built yet in this round; see DESIGN.md §6 order of work")})
@@ -35,11 +37,12 @@ m = {
     "engines": [
         {"name": "lean-models", "path": "lean/", "serves_properties": [c["property_id"] for c in checks], "kind_free_text": "Lean 4 executable models (BumpVerif/Model), lemmas (Proofs), property theorems (Props), line-protocol driver (Driver/Main.lean -> bvdrv)"},
         {"name": "rust-harness", "path": "harness/", "serves_properties": [c["property_id"] for c in checks], "kind_free_text": "in-process differential harness with instrumented #[global_allocator], plan generator, model-independent oracles"},
-        {"name": "extractor", "path": "tools/extract.py", "serves_properties": [c["property_id"] for c in checks], "kind_free_text": "translator regenerating lean/BumpVerif/Gen/*.lean from /repo/src on every run"},
+        {"name": "extractor", "path": "tools/extract.py", "serves_properties": [c["property_id"] for c in checks], "kind_free_text": "translator regenerating lean/BumpVerif/Gen/*.lean from /repo/src on every run (constants, tables, signatures, delegating impls)"},
+        {"name": "body-translator", "path": "tools/rs2lean.py", "serves_properties": sorted(getattr(specs, "GEN_MODS", {})), "kind_free_text": "Rust-subset parser (tools/rsparse.py) + CPS translator of function bodies of src/lib.rs into Lean definitions (Gen/Fn*.lean), each proved equal to the hand-written model function in Props/GenFn*.lean"},
     ],
     "checks": checks,
     "not_applicable": na,
-    "notes": "See DESIGN.md. fix: commits in /repo repair defects F1,F2,F3,F4,F9 (known_findings.json lists them as fixed).",
+    "notes": "See DESIGN.md. fix: commits in /repo repair defects F1-F10 (known_findings.json lists them as fixed; none open).",
 }
 json.dump(m, open(os.path.join(ROOT, "MANIFEST.json"), "w"), indent=1)
 print("claimed:", [c["property_id"] for c in checks])
